@@ -133,7 +133,33 @@ def build(ex):
         ensures=[signalled], raises={}, raises_only=[],
         loops={0: Loop(invariant=[loop_inv, same_list], variant='__n__ - __i__', modifies=['ghost:killed_pids', 'abs:RCtx.alive'], on_bind=children_bound)},
         options={'recv_closed_check': False})
-    return [(run, None), (L2a, None)] + server_side_terminate(ex) + registration_lemmas(ex)
+    return [(run, None), (L2a, None)] + server_side_terminate(ex) + registration_lemmas(ex) + startup_lemma(ex)
+
+
+def startup_lemma(ex):
+    """L6: a backend whose server vanishes while it is still starting up is in nobody's list yet (the server adds the worker to self.children only once
+    __setstate__ has returned), so neither run()'s finally block nor the SIGTERM handler can reach it: it must end BY ITSELF.  It does because the start-up
+    acknowledgement it waits for on the pipe from the server never arrives (EOF).  Contract on the real RemoteWorker._run_backend: the target is called only
+    after that acknowledgement has been received."""
+    from . import childrun, workers
+    con = childrun.backend_run_contract(ex, 'L6', 'C12')
+    inner = con.setup
+
+    def setup(ex_, env):
+        workers.install(ex_)          # the child-side models (process handle, identity of the running process) for this lemma only
+        inner(ex_, env)
+    con.setup = setup
+
+    def ack_before_target(c):
+        ex_ = c.ex
+        ipos = ex_.abs_classes['Conn'].get(ex_, c.env['comms_child'], 'ipos')
+        return z3.Or(ex_.ghost['ncalls'] == 0, ipos >= 1)
+    ack_before_target.__doc__ = ('the target is called only after the start-up acknowledgement of the server has been received on the start-up pipe: a backend whose '
+                                 'server is gone at that point (EOF / OSError on the pipe) ends without running the target - nobody else could end it, it is not '
+                                 'registered anywhere yet')
+    con.name = 'C12.L6 RemoteWorker._run_backend never runs the target of a worker whose server vanished during start-up'
+    con.all_exits = [ack_before_target]
+    return [(con, None)]
 
 
 def registration_lemmas(ex):
@@ -305,6 +331,9 @@ def server_side_terminate(ex):
 
 def replay(ob, repo):
     from pyvc.native import run_script
+    if 'C12.L6' in ob.get('lemma', ''):
+        r = run_script('c12_startup_native.py', {'lemma': 'L6'}, repo, timeout=150)
+        return bool(r.get('violates')), r
     r = run_script('c12_native.py', {'lemma': ob.get('lemma', ''), 'kind': ob.get('kind', '')}, repo, timeout=200)
     return bool(r.get('violates')), r
 
